@@ -565,6 +565,46 @@ impl St {
                     WK::A(w) => stdio_unit(rt::block_on(async { w.write_all(&data).await })),
                 })
             }
+            // `wwritev W D1 D2 …`: the chunks are handed over with `write_vectored` (std `Write` / the runtimes'
+            // `AsyncWriteExt`), repeated with what is left until everything has been accepted
+            "wwritev" => {
+                if a.len() < 2 {
+                    return Err(Bad::Line);
+                }
+                let id = parse_id(a[0], 'W')?;
+                let mut chunks: Vec<Vec<u8>> = Vec::new();
+                for t in &a[1..] {
+                    chunks.push(parse_bytes(t)?);
+                }
+                with_handle(&mut self.writers, &id, |h| {
+                    let mut rest: Vec<&[u8]> = chunks.iter().map(|c| &c[..]).filter(|c| !c.is_empty()).collect();
+                    while !rest.is_empty() {
+                        let slices: Vec<std::io::IoSlice> = rest.iter().map(|c| std::io::IoSlice::new(c)).collect();
+                        let r = match &mut h.k {
+                            WK::S(w) => w.write_vectored(&slices),
+                            #[cfg(any(feature = "rt-async-std", feature = "rt-tokio"))]
+                            WK::A(w) => rt::block_on(async { w.write_vectored(&slices).await }),
+                        };
+                        drop(slices);
+                        match r {
+                            Ok(0) => return stdio_err(&std::io::Error::from(std::io::ErrorKind::WriteZero)),
+                            Ok(mut n) => {
+                                while n > 0 && !rest.is_empty() {
+                                    if n >= rest[0].len() {
+                                        n -= rest[0].len();
+                                        rest.remove(0);
+                                    } else {
+                                        rest[0] = &rest[0][n..];
+                                        n = 0;
+                                    }
+                                }
+                            }
+                            Err(e) => return stdio_err(&e),
+                        }
+                    }
+                    "ok".to_string()
+                })
+            }
             // A persistent caller: like write_all, but a failed `write` is tried again (at most three
             // failures in all) with the bytes not yet acknowledged; `ok <failures>` or the last error.
             "wwrite_p" => {
